@@ -54,13 +54,23 @@ class PopenFuture(concurrent.futures.Future):
         self.end_time = None
         self._exception = None
 
+        # a cancel() that arrives before the process exists must keep run() from spawning it:
+        # the lock makes "test the request, then spawn" atomic with respect to cancel()
+        self._spawn_lock = threading.Lock()
+        self._cancel_requested = False
+
     def start(self):
         """Starts the subprocess and immediately returns."""
 
         def run():
             try:
                 self.start_time = time.time()
-                self.process = Popen(self.cmd, stdout=PIPE, stderr=PIPE, text=True)
+                with self._spawn_lock:
+                    if self._cancel_requested:
+                        # cancelled before the process was spawned: do not spawn it,
+                        # the job ends like one that was refused by the executor
+                        raise ShutdownError()
+                    self.process = Popen(self.cmd, stdout=PIPE, stderr=PIPE, text=True)
 
                 # blocks until the process terminates
                 self.stdout, self.stderr = self.process.communicate(
@@ -89,6 +99,11 @@ class PopenFuture(concurrent.futures.Future):
 
     def cancel(self):
         """Attempts to terminate and then kill the process and its children."""
+        # either the process exists by now (and is dealt with below), or run() will not spawn it;
+        # the lock is released before anything that can take time
+        with self._spawn_lock:
+            self._cancel_requested = True
+
         if not self.is_running():
             return
 
